@@ -20,7 +20,8 @@ def run(ctx, factor):
         status = g.pick(["defined-before", "defined-after", "undefined", "defined"])
         # the referenced name: also names that extend the documented wildcard `@any` and other shipped macro names
         # (an undefined `@any_shift` is as undefined as `@ref`)
-        ref = g.pick(["@ref", "@ref", "@any_shift", "@anyreg", "@any", "@reg_gp", "@imm_8", "@any_rot"])
+        ref = g.pick(["@ref", "@ref", "@any_shift", "@anyreg", "@any", "@reg_gp", "@imm_8", "@any_rot",
+                      "@8bit_reg", "@64", "@-x", "@.r", "@R", "@_"])        # anything after the @ makes a reference
         refdef = {"name": ref, "pattern": [g.pick(["pop", {"sub": ["rcx"]}])] if g.chance(0.5) else "xor"}
         pos = g.pick(["list-item", "operand", "dict-value", "key-with-operands", "key-with-times", "in-macro-body",
                       "embedded-in-operand", "embedded-in-mnemonic", "embedded-in-dict-value", "in-macro-argument"])
